@@ -1094,6 +1094,14 @@ def _fresh(eng, e, st, fr, k):
     return eng.ev(e.args[0], st, fr, got)
 
 
+def _existed(eng, e, st, fr, k):
+    """existed(x): x is an object that already existed when the function was entered"""
+    def got(s, v):
+        base = s.old[2] if s.old is not None else s.alloc0
+        return k(s, SBool(z3.And(v.t > 0, v.t < base)))
+    return eng.ev(e.args[0], st, fr, got)
+
+
 def _allocated(eng, e, st, fr, k):
     return eng.ev(e.args[0], st, fr, lambda s, v: k(s, SBool(z3.And(v.t > 0, v.t < s.alloc))))
 
@@ -1109,6 +1117,15 @@ def _unchanged(eng, e, st, fr, k):
         return k(st, SBool(z3.And([st.heap.get(kk) == oheap.get(kk) for kk in keys])))
     new = ast.Compare(left=a, ops=[ast.Eq()], comparators=[ast.Call(func=ast.Name(id="old", ctx=ast.Load()), args=[a], keywords=[])])
     return eng.ev(new, st, fr, k)
+
+
+def _content_unchanged(eng, e, st, fr, k):
+    """content_unchanged(x): the list / dict / set x holds exactly what it held at entry (same order)"""
+    def got(s, v):
+        kind = v.kind if isinstance(v, SRef) else v.inner
+        oheap = s.old[0]
+        return k(s, SBool(z3.And([z3.Select(s.heap.get(kk), v.t) == z3.Select(oheap.get(kk), v.t) for kk in eng.heap_keys_of(kind)])))
+    return eng.ev(e.args[0], st, fr, got)
 
 
 def _isstr(eng, e, st, fr, k):
@@ -1195,7 +1212,7 @@ def _modconst(eng, e, st, fr, k):
     return k(st, eng.const_value(node, mod, st, fr))
 
 
-SPECIAL_FORMS = {"modconst": _modconst, "nlines": _nlines, "joined": _joined, "truthy": _truthy, "isint": _isint, "isnone": _isnone,
+SPECIAL_FORMS = {"existed": _existed, "content_unchanged": _content_unchanged, "modconst": _modconst, "nlines": _nlines, "joined": _joined, "truthy": _truthy, "isint": _isint, "isnone": _isnone,
                  "dict_key_at": _dict_key_at, "str_of": _str_of, "forall": _quant("forall"), "exists": _quant("exists"), "implies": _implies, "old": _old,
                  "fresh": _fresh, "allocated": _allocated, "unchanged": _unchanged, "isstr": _isstr,
                  "sval": _sval, "ival": _ival, "cls_is": _cls_is, "same": _same_obj, "as_ref": _as_ref}
